@@ -85,6 +85,9 @@ structure WF (e : Ep) : Prop where
   rcResp : InRange32 e.reconfigResponseSeq
   /-- `_send_sack` reads `_last_received_tsn` -/
   sack : e.sackNeeded = true → e.rx.isSome
+  /-- no application handler that re-enters the API is armed (**NoReact**): such a handler may `send()` on a partially
+  reliable channel opened by the peer, which `NoPR` rules out; the general case is `Aiortc.Sctp.V2.WF` -/
+  nr : e.reactions = []
 
 /-- The exceptions the (unfixed) model is known to raise on the receive path:
 `AssertionError` from `InboundStream.add_chunk` (duplicate TSN in the reassembly queue after a TSN wrap) and
@@ -164,9 +167,9 @@ theorem DataFrame.assoc {e e' : Ep} (h : DataFrame e e') : e'.assoc = e.assoc :=
 
 theorem WF.setChan {e : Ep} (h : WF e) {i : Nat} {c c' : Chan} (hi : e.chans[i]? = some c) (hs : Chan.Same c c') :
     WF { e with chans := e.chans.set i c' } :=
-  ⟨h.net, h.ch.set hi hs, h.tx, h.rx, h.rcReq, h.rcResp, h.sack⟩
+  ⟨h.net, h.ch.set hi hs, h.tx, h.rx, h.rcReq, h.rcResp, h.sack, h.nr⟩
 
 theorem WF.setTx {e : Ep} (h : WF e) {tx : Tx} (ht : TxOk tx) : WF { e with tx := tx } :=
-  ⟨h.net, h.ch, ht, h.rx, h.rcReq, h.rcResp, h.sack⟩
+  ⟨h.net, h.ch, ht, h.rx, h.rcReq, h.rcResp, h.sack, h.nr⟩
 
 end Aiortc.Sctp
